@@ -77,9 +77,9 @@ class RendererSpy:
         dns.renderer.Renderer.__init__ = self.orig
 
 
-def check_compression(ctx, table, w, case, tag=""):
+def check_compression(ctx, table, w, case, tag="", hits=True):
     """every hit and every surviving insertion decodes (reference decoder) to the keyed suffix"""
-    for k, off in table.hits:
+    for k, off in (table.hits if hits else ()):
         ctx.count("mon.compress_hit")
         if off > 0x3FFF or off >= len(w):
             ctx.violation("compress-pointer-target-out-of-range" + tag, f"{k} -> {off} len={len(w)}", case)
